@@ -174,6 +174,32 @@ class Context:
         # eval function
         self._globals["eval"] = self._create_eval_function()
 
+        self._name_builtin_functions()
+
+    def _name_builtin_functions(self) -> None:
+        """Give every built-in function the name it is installed under (its
+        `name` property; `length` follows from the name)."""
+        import types
+
+        def named(fn, name):
+            if isinstance(fn, types.MethodType):
+                method = fn
+
+                def fn(*args):  # a bound method cannot carry attributes itself
+                    return method(*args)
+
+            if isinstance(fn, types.FunctionType) and not hasattr(fn, "_js_name"):
+                fn._js_name = name
+            return fn
+
+        for name, value in list(self._globals.items()):
+            if isinstance(value, (types.FunctionType, types.MethodType)):
+                self._globals[name] = named(value, name)
+            elif isinstance(value, JSObject):
+                for key, member in list(value._properties.items()):
+                    if isinstance(member, (types.FunctionType, types.MethodType)):
+                        value._properties[key] = named(member, key)
+
     def _js_to_string(self, value: JSValue) -> str:
         """ToString as scripts see it: an object is converted through its
         toString/valueOf by the interpreter that is running (plain conversion
